@@ -2707,6 +2707,7 @@ class op(object):
                 else:
                     varname = str(k)
                 varname = varname[:(7-len(str(i)))] + '_' + str(i)
+                nentries = f.tell()
 
                 if v in self.objective._linear._coeff:
                     cf = self.objective._linear._coeff[v]
@@ -2749,6 +2750,13 @@ class op(object):
                                  f.write(4*' ' + varname[:8].rjust(8))
                                  f.write(2*' ' + conname[:8].rjust(8))
                                  f.write(2*' ' + '% 7.5E\n' %cf[0,0])
+
+                if f.tell() == nentries:
+                    # a column without entries must still be declared (it
+                    # gets a bound line below): write a zero cost entry
+                    f.write(4*' ' + varname[:8].rjust(8))
+                    f.write(2*' ' + '%8s' %'cost')
+                    f.write(2*' ' + '% 7.5E\n' %0.0)
                         
         f.write('RHS\n') 
         for j in range(len(constraints)):
